@@ -362,16 +362,20 @@ OnStatus(S, m, e) ==
                    sameJobs /\ e.marker /\ has /\ ~m.faulty /\ ~m.nodefault /\ ~e.canceled /\ ~AnyDry(S)
                      /\ JsPart(e) # JsPart(prev) /\ leftover # {},
                    S.maxnodes > 0 /\ Len(e.ids) >= S.maxnodes)
+      \* C05: no persisted status makes a job wait for a job that is already done (nobody will ever clear that blocker: the
+      \* submitter removes a blocker only in the round that collects its result) -- first submission or resubmission alike
+      a19b == Check(a19, "WaitsOnlyForUnfinished", sameJobs /\ FaultFree(m),
+                    \A j \in J : e.st[j] = 0 => \A b \in ToSet(e.rem[j]) : b \in J => e.st[b] # 2)
       notRerun(r) == r[1] \notin m.rerun
       b19 == IF isResub
-               THEN [a19 EXCEPT !.launches = [j \in J |-> 0], !.placed = [j \in J |-> {}],
+               THEN [a19b EXCEPT !.launches = [j \in J |-> 0], !.placed = [j \in J |-> {}],
                                 !.res = [j \in (DOMAIN @) \ m.rerun |-> @[j]],
                                 !.appended = {r \in @ : notRerun(r)}, !.intents = {r \in @ : notRerun(r)},
                                 !.reported = {r \in @ : notRerun(r)}, !.canceledJ = @ \ m.rerun,
                                 !.exited = [j \in (DOMAIN @) \ m.rerun |-> @[j]],
                                 !.faulty = FALSE, !.nodefault = FALSE, !.otherFaults = FALSE, !.killedB = {},
                                 !.prevSummary = m.lastSummary.res, !.anyHandOver = FALSE]
-               ELSE a19
+               ELSE a19b
       \* a refused resubmit-jobs is only held to "unchanged" if nobody else wrote meanwhile
       c19 == [b19 EXCEPT !.refused = [p \in DOMAIN @ |-> IF p \in m.alive /\ e.pid # p /\ Keep([m EXCEPT !.st = [k \in DOMAIN NoStatus |-> e[k]]]) # Keep(m)
                                                           THEN <<@[p][1], TRUE>> ELSE @[p]]]
@@ -589,7 +593,7 @@ ClausesOf(c) ==
     [] c = "C03" -> {"FinalResultsComplete", "FinalResultsMatchReference", "OneEntryPerJob", "LocalRunRecordsResults"}
     [] c = "C04" -> {"CanceledShape", "CanceledNeverRuns", "CanceledOnlyIf", "CanceledIff", "RanExactlyOnceUnlessCanceled",
                      "NotCanceledRuns", "FlaggedWaitsForCleanBlockers", "RerunCanceledIff"}
-    [] c = "C05" -> {"QuiescentRoundProgress", "NoIdleLeftover", "CompleteHasAllResults", "SummaryBeforeFlag", "CompleteOnce",
+    [] c = "C05" -> {"QuiescentRoundProgress", "NoIdleLeftover", "WaitsOnlyForUnfinished", "CompleteHasAllResults", "SummaryBeforeFlag", "CompleteOnce",
                      "SummaryOnlyBeforeFlag", "NodeRoundAfterBatch", "CompleteSummaryHasAll",
                      "NoSbatchAfterComplete", "CompletesAfterRecovery", "CompletionWorkOnce"}
     [] c = "C06" -> {"NodesBound", "ProcsBound", "ActiveBatchesTracked"}
